@@ -89,12 +89,23 @@ def m_ser_ref(M, a, c, fr):
     return M.call('<%s as Serialize>::serialize::<__S>' % m.group(1), [M.load(a[0]), a[1]], fr)
 
 
+def m_serialize_some(M, a, c, fr):
+    # Serializer::serialize_some(self, &T): a self-describing format writes the value itself (what serde_json does); reached from
+    # hand-written `serialize_with` functions, the derive itself goes through <Option<T> as Serialize>
+    m = re.fullmatch(r'<.+ as Serializer>::serialize_some::<(.+)>', c)
+    return ser_value(M, m.group(1), a[1], fr)
+
+
+def m_serialize_none(M, a, c, fr): return res_ok(('null',))
+
+
 def m_opt_is_none_sym(M, a, c, fr):
     o = deref(M, a[0]); return z3.BoolVal(o.discr == 0) if isinstance(o.discr, int) else o.discr == 0
 
 
 SERDE_MODELS = [
     (r'<.+ as Serializer>::serialize_struct', m_serialize_struct),
+    (r'<.+ as Serializer>::serialize_some::<.+>', m_serialize_some), (r'<.+ as Serializer>::serialize_none', m_serialize_none),
     (r'<.+ as SerializeStruct>::serialize_field::<.+>', m_serialize_field), (r'<.+ as SerializeStruct>::skip_field', m_skip_field), (r'<.+ as SerializeStruct>::end', m_struct_end),
     (r'<.+ as Serializer>::serialize_newtype_variant::<.+>', m_newtype_variant), (r'<.+ as Serializer>::serialize_unit_variant', m_unit_variant),
     (r'<(u8|u16|u32|u64) as Serialize>::serialize(::<.*>)?', m_ser_num), (r'<(String|&?str) as Serialize>::serialize(::<.*>)?', m_ser_str),
